@@ -112,6 +112,9 @@ def run(ctx):
             n = d + 2
         seed = ctx.rng.randrange(10 ** 6)
         G = nx.random_regular_graph(d, n, seed=seed)
+        if k % 2 == 1:
+            odes.decorate(ctx.rng, G)          # unused 'weight' attributes
+            ctx.count("regular:with-unused-attributes")
         N = G.order()
         rho = ctx.rng.choice([0.1, 0.25])
         tau, gamma = ctx.rng.choice([(0.4, 1.0), (1.0, 0.5)])
